@@ -58,6 +58,10 @@ def partitions_random(rng, stream, n):
             chunks.append(stream[prev:c])
             prev = c
         res.append([c for c in chunks])
+    # a few bytes first, the whole rest in ONE large read (a slow start followed by a burst)
+    if L > 12:
+        k = rng.randrange(1, 12)
+        res.append([stream[:k], stream[k:]])
     # cuts inside every CR LF and inside multi-byte characters
     cuts = [i + 1 for i in range(L - 1) if stream[i : i + 2] == b"\r\n"] + [i for i in range(L) if 0x80 <= stream[i] < 0xC0]
     if cuts:
@@ -80,7 +84,7 @@ def gen_line(rng, recorded):
         S = rng.choice(["MAIN", "SYS", "ZONE2", "TUN", "A", "Z9", "NETRADIO", "é", "名"])
         F = rng.choice(["VOL", "INP", "ZONENAME", "SONG", "X", "3DCINEMA", "F:G", "ü"])
         V = rng.choice(
-            ["", "?", "-30.5", "On", "a=b", "a:b=c:d", "=", ":", "@x:y=z", "Zone2   ß", "\U0001f600 music", "日本語", "tab\there", "a\nb", "\n", "a\rb", "x" * rng.randrange(0, 300), " lead", "trail ", "@UNDEFINED"]
+            ["", "?", "-30.5", "On", "a=b", "a:b=c:d", "=", ":", "@x:y=z", "Zone2   ß", "\U0001f600 music", "日本語", "tab\there", "a\nb", "\n", "a\rb", "x" * rng.randrange(0, 300), "y" * rng.choice([0, 700, 1100, 1500, 2600]), " lead", "trail ", "@UNDEFINED"]
         )
         return f"@{S}:{F}={V}".encode("utf-8"), "sfv"
     if r < 0.82:
@@ -174,6 +178,25 @@ def run(chk: Check):
             if L >= 3 and rng.random() < (0.02 if chk.tier == "quick" else 0.01):
                 model_cases.append(([stream[:1], stream[1:]], impl_run([stream[:1], stream[1:]])))
     dist["exhaustive_partition_runs"] = n_ex
+
+    # the same on a live connection: what the protocol handles is the framing of the bytes read in this session,
+    # also when the object has been through an earlier session that ended in the middle of a line
+    from .. import connscen as CS
+
+    n_live = 40 if chk.tier == "quick" else 600
+    dist["live_sessions"] = n_live
+    for k in range(n_live):
+        sc = CS.gen_scenario(rng, chk.tier, allow_delay=False, long_idle=False)
+        sc["prior_session"] = {"close_after_s": rng.choice([0.0, 0.05, 0.2]), "reconnect_after_s": rng.choice([0.0, 0.01, 0.3])} if k % 2 == 0 else None
+        sc["unsolicited"] = True
+        s = CS.run_scenario(sc)
+        chk.count_case({"live": sc}, True)
+        if s.sim.failure is not None:
+            chk.violation("rx:live-no-termination", f"live session never came to rest: {s.sim.failure}", {"scenario": sc})
+            continue
+        why = CS.mon_framing(s)
+        if why:
+            chk.violation("rx:live-framing", why, {"scenario": sc})
 
     # ------------------------------------------------------------ model correspondence
     validated = 0
